@@ -23,9 +23,10 @@ type semField struct {
 	text    string
 	idx     int
 	kind    string
-	path    []string // selector path below the element
-	indexed bool     // path[0-th element]
-	levels  []Value  // raw values in ascending key order
+	path    []string                    // selector path below the element
+	indexed bool                        // path[0-th element]
+	levels  []Value                     // raw values in ascending key order
+	set     func(el *Struct, raw Value) // custom placement of the raw value (nil: by path)
 }
 
 var reElemPath = regexp.MustCompile(`§A((?:\.[A-Za-z_][A-Za-z0-9_]*)*)(\[0\])?`)
@@ -171,7 +172,8 @@ func bindExpr(env *Env, e ast.Expr, v Value) error {
 }
 
 // semanticKeys recovers the key list of a comparator.
-//   less(a, b) evaluates the comparator on two freshly built elements.
+//
+//	less(a, b) evaluates the comparator on two freshly built elements.
 func semanticKeys(site string, fields []*semField, less func(a, b Value) (bool, error), build func(levels []int) Value) ([]keyField, []int, error) {
 	k := len(fields)
 	mid := make([]int, k)
@@ -312,6 +314,12 @@ func semanticSite(p *pkgInfo, s sortSite, fd *ast.FuncDecl) ([]keyField, error) 
 		if !ok {
 			return nil, unavailable("no value kind for field %s", t)
 		}
+		if kind == "blockend" { // dcd.getBlockEndLine(§A): the end line of the last statement of a basic block
+			fields = append(fields, &semField{text: t, idx: s.fields[t], kind: kind, set: func(el *Struct, raw Value) {
+				el.F["Statements"] = mkSlice(mkStruct("Node", "Location", mkStruct("Location", "StartLine", raw, "EndLine", raw)))
+			}})
+			continue
+		}
 		m := reElemPath.FindStringSubmatch(t)
 		if m == nil || strings.Count(t, "§A") != 1 || m[1] == "" {
 			return nil, unavailable("field %s is not a path below the element", t)
@@ -380,7 +388,11 @@ func semanticSite(p *pkgInfo, s sortSite, fd *ast.FuncDecl) ([]keyField, error) 
 			return nil, err
 		}
 		el := mkStruct("")
-		setPath(el, f.path, f.indexed, raw)
+		if f.set != nil {
+			f.set(el, raw)
+		} else {
+			setPath(el, f.path, f.indexed, raw)
+		}
 		scope := newEnv(env)
 		if tableScope != nil {
 			scope = newEnv(tableScope)
@@ -402,7 +414,7 @@ func semanticSite(p *pkgInfo, s sortSite, fd *ast.FuncDecl) ([]keyField, error) 
 	for _, f := range fields {
 		var cands []Value
 		switch {
-		case f.kind == "int":
+		case f.kind == "int" || f.kind == "blockend":
 			f.levels = []Value{int64(1), int64(2), int64(3)}
 			continue
 		case f.kind == "float":
@@ -490,6 +502,10 @@ func semanticSite(p *pkgInfo, s sortSite, fd *ast.FuncDecl) ([]keyField, error) 
 		for i, f := range fields {
 			raw := f.levels[levels[i]]
 			// "frag" values are shared objects: equal level = the same *CodeFragment, as in the program
+			if f.set != nil {
+				f.set(el, raw)
+				continue
+			}
 			setPath(el, f.path, f.indexed, raw)
 		}
 		return el
